@@ -1,0 +1,120 @@
+//go:build verif
+
+package state
+
+// Contracts for govc (/verif). Comment-only file: no executable code, not part of the default build.
+
+/*@
+// C08 — contract storage values read back exactly as written (TrackableDataTrie: dirty-data layer)
+
+struct TrackableDataTrie
+  invariant map: !isNil(dirtyData)
+
+func trimValue(value []byte, tailLength int) (r []byte, err error)
+  requires tail-non-negative: tailLength >= 0
+  ensures  too-short: len(value) < tailLength ==> isNil(r) && err != nil
+  ensures  prefix: len(value) >= tailLength ==> err == nil && len(r) == len(value) - tailLength && base(r) == base(value) && off(r) == off(value)
+  assigns  nothing
+
+func (tdaw *TrackableDataTrie) ClearDataCaches()
+  ensures  inv(tdaw)
+  ensures  emptied: len(tdaw.dirtyData) == 0 && fresh(tdaw.dirtyData)
+  assigns  tdaw.dirtyData
+
+func (tdaw *TrackableDataTrie) SaveKeyValue(key []byte, value []byte) (err error)
+  requires inv(tdaw)
+  ensures  inv(tdaw)
+  ensures  too-big-rejected: len(value) > 67108864 ==> err != nil
+  ensures  accepted: len(value) <= 67108864 ==> err == nil
+  ensures  stored-length: err == nil ==> len(tdaw.dirtyData[old(str(key))]) == len(value) + (len(value) != 0 ? len(key) + len(tdaw.identifier) : 0)
+  ensures  stored-value: err == nil ==> (forall i :: 0 <= i && i < len(value) ==> tdaw.dirtyData[old(str(key))][i] == old(value[i]))
+  ensures  stored-key: err == nil && len(value) != 0 ==> (forall i :: 0 <= i && i < len(key) ==> tdaw.dirtyData[old(str(key))][len(value) + i] == old(key[i]))
+  ensures  stored-identifier: err == nil && len(value) != 0 ==> (forall i :: 0 <= i && i < len(tdaw.identifier) ==> tdaw.dirtyData[old(str(key))][len(value) + len(key) + i] == old(tdaw.identifier[i]))
+  ensures  fresh: err == nil && len(value) != 0 ==> fresh(tdaw.dirtyData[old(str(key))])
+  ensures  stored-value-when-key-has-no-spare-capacity: err == nil && cap(key) == len(key) ==> (forall i :: 0 <= i && i < len(value) ==> tdaw.dirtyData[old(str(key))][i] == old(value[i]))
+  ensures  stored-value-when-buffers-are-separate: err == nil && base(key) != base(value) ==> (forall i :: 0 <= i && i < len(value) ==> tdaw.dirtyData[old(str(key))][i] == old(value[i]))
+  ensures  stored-present: err == nil ==> has(tdaw.dirtyData, old(str(key)))
+  ensures  other-entries-kept: forall s string :: s != old(str(key)) ==> tdaw.dirtyData[s] == old(tdaw.dirtyData[s])
+  ensures  other-keys-kept: forall s string :: s != old(str(key)) ==> (has(tdaw.dirtyData, s) <==> old(has(tdaw.dirtyData, s)))
+  ensures  rejected-changes-nothing: err != nil ==> tdaw.dirtyData[old(str(key))] == old(tdaw.dirtyData[str(key)])
+  ensures  fresh-no-spare: err == nil && len(value) != 0 && cap(value) == len(value) && len(key) + len(tdaw.identifier) > 0 ==> fresh(tdaw.dirtyData[old(str(key))])
+  assigns  mapof(tdaw.dirtyData)
+
+// The data trie behind the dirty layer (assumption; what the trie holds is C01's subject): Get has no visible effect and
+// answers from the trie content, which is a function of the key CONTENT. trieValue/trieFails do not depend on the heap, so
+// this model is only valid for code that does not update the trie between two reads.
+spec fn trieValue(tr data.Trie, key string) []byte
+spec fn trieFails(tr data.Trie, key string) bool
+
+func (tr data.Trie) Get(key []byte) (r []byte, err error)
+  ensures  reads-trie: (err != nil <==> trieFails(tr, str(key))) && (err == nil ==> r == trieValue(tr, str(key)))
+  assigns  nothing
+
+func (tdaw *TrackableDataTrie) RetrieveValue(key []byte) (r []byte, err error)
+  requires inv(tdaw)
+  ensures  dirty-read: has(tdaw.dirtyData, str(key)) && len(tdaw.dirtyData[str(key)]) >= len(key) + len(tdaw.identifier) ==> err == nil && len(r) == len(tdaw.dirtyData[str(key)]) - len(key) - len(tdaw.identifier) && base(r) == base(tdaw.dirtyData[str(key)]) && off(r) == off(tdaw.dirtyData[str(key)])
+  ensures  dirty-read-short-entry: has(tdaw.dirtyData, str(key)) && len(tdaw.dirtyData[str(key)]) < len(key) + len(tdaw.identifier) ==> len(r) == 0
+  ensures  dirty-read-short-entry-no-error: has(tdaw.dirtyData, str(key)) && len(tdaw.dirtyData[str(key)]) < len(key) + len(tdaw.identifier) ==> err == nil
+  ensures  no-trie: !has(tdaw.dirtyData, str(key)) && tdaw.tr == nil ==> isNil(r) && err != nil
+  ensures  trie-error: !has(tdaw.dirtyData, str(key)) && tdaw.tr != nil && trieFails(tdaw.tr, str(key)) ==> isNil(r) && err != nil
+  ensures  trie-read: !has(tdaw.dirtyData, str(key)) && tdaw.tr != nil && !trieFails(tdaw.tr, str(key)) && len(trieValue(tdaw.tr, str(key))) >= len(key) + len(tdaw.identifier) ==> err == nil && len(r) == len(trieValue(tdaw.tr, str(key))) - len(key) - len(tdaw.identifier) && base(r) == base(trieValue(tdaw.tr, str(key))) && off(r) == off(trieValue(tdaw.tr, str(key)))
+  ensures  trie-read-short-leaf: !has(tdaw.dirtyData, str(key)) && tdaw.tr != nil && !trieFails(tdaw.tr, str(key)) && len(trieValue(tdaw.tr, str(key))) < len(key) + len(tdaw.identifier) ==> err == nil && isNil(r)
+  assigns  nothing
+
+func NewTrackableDataTrie(identifier []byte, tr data.Trie) (r *TrackableDataTrie)
+  ensures  fresh(r) && inv(r)
+  ensures  empty: len(r.dirtyData) == 0 && (forall s string :: !has(r.dirtyData, s))
+  ensures  configured: r.identifier == identifier && r.tr == tr
+  assigns  nothing
+
+// The property, composed from the two contracts: what SaveKeyValue stored is what RetrieveValue returns, for every value
+// (also one that ends in key ++ identifier).
+lemma read-back
+  vars t *TrackableDataTrie, k []byte, v []byte
+  hyp  inv(t) && 0 < len(v) && len(v) <= 67108864
+  call e = t.SaveKeyValue(k, v)
+  call r, e2 = t.RetrieveValue(k)
+  concl saved: e == nil
+  concl read-without-error: e2 == nil
+  concl same-length: len(r) == len(v)
+  concl same-bytes: forall i :: 0 <= i && i < len(v) ==> r[i] == old(v[i])
+
+// The same with the hypothesis under which SaveKeyValue's stored-value clause is proved today (finding F08).
+lemma read-back-separate-buffers
+  vars t *TrackableDataTrie, k []byte, v []byte
+  hyp  inv(t) && 0 < len(v) && len(v) <= 67108864 && base(k) != base(v)
+  call e = t.SaveKeyValue(k, v)
+  call r, e2 = t.RetrieveValue(k)
+  concl same-length: e == nil && e2 == nil && len(r) == len(v)
+  concl same-bytes: forall i :: 0 <= i && i < len(v) ==> r[i] == old(v[i])
+
+// After flush and reload: IF the trie of the reloaded account (tracker t2, same identifier, nothing dirty) holds under the key
+// the very entry SaveKeyValue built (that is what AccountsDB.saveDataTrie + the trie's Get-after-Update have to deliver; not
+// proved here), THEN reading through the trie path returns the value written.
+lemma read-back-after-flush-and-reload
+  vars t *TrackableDataTrie, t2 *TrackableDataTrie, k []byte, v []byte, i int
+  hyp  inv(t) && inv(t2) && t2.dirtyData != t.dirtyData && !has(t2.dirtyData, str(k)) && 0 < len(v) && len(v) <= 67108864
+  hyp  t2.tr != nil && !trieFails(t2.tr, str(k)) && 0 <= i && i < len(v)
+  call e = t.SaveKeyValue(k, v)
+  call r, e2 = t2.RetrieveValue(k)
+  concl same-length: trieValue(t2.tr, str(k)) == t.dirtyData[str(k)] && t2.identifier == t.identifier ==> e2 == nil && len(r) == len(v)
+  concl same-bytes: trieValue(t2.tr, str(k)) == t.dirtyData[str(k)] && t2.identifier == t.identifier ==> r[i] == v[i]
+
+lemma deleted-reads-empty
+  vars t *TrackableDataTrie, k []byte, v []byte
+  hyp  inv(t) && len(v) == 0
+  call e = t.SaveKeyValue(k, v)
+  call r, e2 = t.RetrieveValue(k)
+  concl saved: e == nil
+  concl empty: len(r) == 0
+
+// A later save under another key leaves the first entry readable (needs SaveKeyValue's frame and `fresh`: finding F08).
+lemma second-save-keeps-first
+  vars t *TrackableDataTrie, k1 []byte, v1 []byte, k2 []byte, v2 []byte, i int
+  hyp  inv(t) && 0 < len(v1) && len(v1) <= 67108864 && len(v2) <= 67108864 && str(k1) != str(k2) && 0 <= i && i < len(v1)
+  call e1 = t.SaveKeyValue(k1, v1)
+  call e2 = t.SaveKeyValue(k2, v2)
+  call r, e3 = t.RetrieveValue(k1)
+  concl same-length: e1 == nil && e2 == nil && e3 == nil && len(r) == len(v1)
+  concl same-bytes: r[i] == old(v1[i])
+@*/
